@@ -253,9 +253,9 @@ META = {
               'missing-directory pass) returned False; no invocation is dropped or short-circuited; within one directory the handler is invoked exactly for the items that do not verify, once each, in order '
               '(C07_directory_log); over the whole tree every invocation is justified by a failed check of that very path with exactly the differences handed over (C07_only_offending_reported: "for no other path"). '
               'Conversely every entry of the merged entry dictionary and every file found by the walk whose check fails is handed to the handler, whichever directory it belongs to (C07_every_offending_path_reported, Proofs/WalkComplete.v). '
-              'No path is handed to the handler twice - the relative paths of different directory visits never coincide, the trailing pass reports entries of directories that were not visited - for the verification of a sub-directory of a tree whose '
-              'directory listings have unique, non-empty, slash-free names (C07_each_path_reported_at_most_once; Proofs/Once.v, Proofs/DictWf.v: the merged dictionary has unique directory keys and unique slash-free names per directory). '
-              'PARTIAL: for the top directory (start path empty) the same is compared on generated trees (complete ordered call log, model vs /repo).',
+              'No path is handed to the handler twice - the relative paths of different directory visits never coincide, the trailing pass reports entries of directories that were not visited - for any requested path, the whole tree included, on a tree whose '
+              'directory listings have unique, non-empty, slash-free names and a loader whose Manifests name relative paths, which loading preserves (C07_each_path_reported_at_most_once, C07_loader_names_relative_paths; Proofs/Once.v, Proofs/DictWf.v, '
+              'Proofs/Relative.v: string lemmas about os.path.join / dirname / basename, the merged dictionary has unique directory keys and unique slash-free names per directory). The complete ordered call log is also compared on generated trees (model vs /repo).',
    level_note='About Model/Loader.v walk_verify/verify_dir; the lazy-all() defect D1 was repaired in /repo (fix commit) and the model has no laziness.'),
  'C16': dict(engine='coq+tree', design_ref='DESIGN.md section 5 C16',
    technique='Coq termination proof of the walk over arbitrary cyclic inode graphs (pigeonhole on recorded directory identities) + enumeration of small symlink graphs on a real filesystem under a watchdog',
